@@ -264,6 +264,10 @@ def bounded(tier, seed):
     f = builtin_cases()
     if f:
         return n, f, {'case': 'builtin'}
+    n += 1
+    f = history_cases()
+    if f:
+        return n, f, {'case': 'history'}
     for s in range(1500 if tier == 'thorough' else 40):
         sc = build_scenario(rnd)
         for k in range(25):
@@ -272,3 +276,107 @@ def bounded(tier, seed):
             if f:
                 return n, f, {'scenario': s, 'call': k}
     return n, None, None
+
+
+def history_cases():
+    """the decision is taken from the exports and the interface declarations AS THEY ARE when the call arrives: members removed
+    from or re-declared on a live interface, an object replaced at its path, unexport followed by export"""
+    from txdbus import interface, message, objects
+
+    def mk(iface, tag, log):
+        class O(objects.DBusObject):
+            dbusInterfaces = [iface]
+
+            def dbus_M(self, arg):
+                log.append((tag, 'M', arg))
+                return arg
+
+            def dbus_N(self, arg):
+                log.append((tag, 'N', arg))
+                return arg
+        return O('/org/verif/H')
+
+    def call(handler, conn, member, sig, body, iface_name='org.verif.H', path='/org/verif/H', serial=[100]):
+        serial[0] += 1
+        m = message.MethodCallMessage(path, member, interface=iface_name, signature=sig, body=body)
+        p = message.parseMessage(m.rawMessage, [])
+        p.sender = ':1.5'
+        del conn.sent[:]
+        handler.handleMethodCallMessage(p)
+        if len(conn.sent) != 1 or conn.sent[0].reply_serial != p.serial or conn.sent[0].destination != ':1.5':
+            return 'replies %r' % [(type(r).__name__, getattr(r, 'reply_serial', None), r.destination) for r in conn.sent]
+        r = conn.sent[0]
+        return (type(r).__name__, getattr(r, 'error_name', None), r.body)
+
+    for with_iface in (True, False):
+        name = 'org.verif.H' if with_iface else None
+        log = []
+        conn = Conn()
+        handler = objects.DBusObjectHandler(conn)
+        ifA = interface.DBusInterface('org.verif.H', interface.Method('M', arguments='s', returns='s'), interface.Method('N', arguments='i', returns='i'), noRegister=True)
+        a = mk(ifA, 'A', log)
+        handler.exportObject(a)
+        steps = []
+
+        def expect(what, got, want_kind, want_err=None, want_body=None, ran=None):
+            if not isinstance(got, tuple):
+                return '%s: %s' % (what, got)
+            kind, err, body = got
+            if kind != want_kind or (want_err and err != want_err) or (want_body is not None and body != want_body):
+                return '%s: answered %r, expected %r' % (what, got, (want_kind, want_err, want_body))
+            if log != ([ran] if ran else []):
+                return '%s: user code that ran: %r, expected %r' % (what, log, [ran] if ran else [])
+            del log[:]
+            return None
+        seq = [
+            ('first call M(s)', lambda: call(handler, conn, 'M', 's', ['x'], name), 'MethodReturnMessage', None, ['x'], ('A', 'M', 'x')),
+            ('second call M(s)', lambda: call(handler, conn, 'M', 's', ['y'], name), 'MethodReturnMessage', None, ['y'], ('A', 'M', 'y')),
+        ]
+        for what, fn, k, e, b, ran in seq:
+            f = expect(what, fn(), k, e, b, ran)
+            if f:
+                return '[interface %s] %s' % ('named' if with_iface else 'omitted', f)
+        # the member is removed from the live interface
+        ifA.delMethod('M')
+        f = expect('M after delMethod', call(handler, conn, 'M', 's', ['x'], name), 'ErrorMessage', 'org.freedesktop.DBus.Error.UnknownMethod')
+        if f:
+            return '[interface %s] %s' % ('named' if with_iface else 'omitted', f)
+        # ... and declared again with another argument signature
+        ifA.addMethod(interface.Method('M', arguments='i', returns='i'))
+        f = expect('re-declared M called with the old signature', call(handler, conn, 'M', 's', ['x'], name), 'ErrorMessage', 'org.freedesktop.DBus.Error.InvalidArgs') or \
+            expect('re-declared M called with the new signature', call(handler, conn, 'M', 'i', [4], name), 'MethodReturnMessage', None, [4], ('A', 'M', 4))
+        if f:
+            return '[interface %s] %s' % ('named' if with_iface else 'omitted', f)
+        # another object takes the path (export over an exported path): its declarations and its implementations count
+        ifB = interface.DBusInterface('org.verif.H', interface.Method('M', arguments='s', returns='s'), noRegister=True)
+        b = mk(ifB, 'B', log)
+        handler.exportObject(b)
+        f = expect('N after the object was replaced by one without N', call(handler, conn, 'N', 'i', [1], name), 'ErrorMessage', 'org.freedesktop.DBus.Error.UnknownMethod') or \
+            expect('M(s) after the object was replaced', call(handler, conn, 'M', 's', ['z'], name), 'MethodReturnMessage', None, ['z'], ('B', 'M', 'z')) or \
+            expect('M(i) after the object was replaced', call(handler, conn, 'M', 'i', [4], name), 'ErrorMessage', 'org.freedesktop.DBus.Error.InvalidArgs')
+        if f:
+            return '[interface %s] %s' % ('named' if with_iface else 'omitted', f)
+        handler.unexportObject('/org/verif/H')
+        f = expect('M after unexport', call(handler, conn, 'M', 's', ['z'], name), 'ErrorMessage', 'org.freedesktop.DBus.Error.UnknownObject')
+        if f:
+            return '[interface %s] %s' % ('named' if with_iface else 'omitted', f)
+        handler.exportObject(a)
+        f = expect('M(i) after the first object was exported again', call(handler, conn, 'M', 'i', [9], name), 'MethodReturnMessage', None, [9], ('A', 'M', 9)) or \
+            expect('N(i) after the first object was exported again', call(handler, conn, 'N', 'i', [2], name), 'MethodReturnMessage', None, [2], ('A', 'N', 2))
+        if f:
+            return '[interface %s] %s' % ('named' if with_iface else 'omitted', f)
+    # an exported object's own member called Ping / Introspect, called without naming an interface, is the object's
+    for member in ('Ping', 'Introspect'):
+        log = []
+        conn = Conn()
+        handler = objects.DBusObjectHandler(conn)
+        ifc = interface.DBusInterface('org.verif.Own', interface.Method(member, arguments='s', returns='s'), noRegister=True)
+
+        class P(objects.DBusObject):
+            dbusInterfaces = [ifc]
+        setattr(P, 'dbus_' + member, lambda self, arg, _m=member: (log.append(('P', _m, arg)), 'own:' + arg)[1])
+        handler.exportObject(P('/org/verif/H'))
+        got = call(handler, conn, member, 's', ['q'], None)
+        if got != ('MethodReturnMessage', None, ['own:q']) or log != [('P', member, 'q')]:
+            return 'interface-less call of the object\'s own member %s: answered %r, user code %r' % (member, got, log)
+    return None
